@@ -6,6 +6,7 @@ package engine
 import (
 	"fmt"
 	"math/bits"
+	"sort"
 	"strings"
 )
 
@@ -66,14 +67,17 @@ type Term struct {
 }
 
 type TB struct {
-	tab   map[string]*Term
-	next  int
-	True  *Term
-	False *Term
-	memo  map[[3]int]*Term // pushdown memo: (kind, termID, param)
-	ufs   map[string]ufSig
-	vars  []*Term
-	fresh int
+	tab        map[string]*Term
+	next       int
+	True       *Term
+	False      *Term
+	memo       map[[4]int]*Term // pushdown memo
+	leafc      map[int][]uint64
+	ufs        map[string]ufSig
+	vars       []*Term
+	fresh      int
+	Phase      string
+	PhaseCount map[string]int
 }
 
 type ufSig struct {
@@ -82,7 +86,7 @@ type ufSig struct {
 }
 
 func NewTB() *TB {
-	b := &TB{tab: map[string]*Term{}, memo: map[[3]int]*Term{}, ufs: map[string]ufSig{}}
+	b := &TB{tab: map[string]*Term{}, memo: map[[4]int]*Term{}, leafc: map[int][]uint64{}, ufs: map[string]ufSig{}}
 	b.True = b.mk(&Term{Op: OpConst, W: 0, Val: 1})
 	b.False = b.mk(&Term{Op: OpConst, W: 0, Val: 0})
 	return b
@@ -102,6 +106,12 @@ func (b *TB) mk(t *Term) *Term {
 	}
 	t.ID = b.next
 	b.next++
+	if b.Phase != "" {
+		if b.PhaseCount == nil {
+			b.PhaseCount = map[string]int{}
+		}
+		b.PhaseCount[b.Phase]++
+	}
 	b.tab[k] = t
 	if t.Op == OpVar {
 		b.vars = append(b.vars, t)
@@ -325,16 +335,20 @@ func (b *TB) Ite(c, x, y *Term) *Term {
 	return b.mk(&Term{Op: OpIte, W: x.W, Args: []*Term{c, x, y}})
 }
 
-// constLeafTree reports whether t is a constant or an ite-tree whose leaves
-// are all constants (the shape of every pointer/tag term in the engine).
+// constLeafTree reports whether t is a constant, an ite-tree whose leaves are
+// constants, or such a tree shifted by a constant (x + c). This is the shape
+// of every pointer, tag and small counter in the engine. Shifts are kept lazy
+// so that field addressing creates no copies of the underlying tree.
 func (b *TB) constLeafTree(t *Term) bool {
-	if t.IsConst() {
+	switch {
+	case t.IsConst():
 		return true
-	}
-	if t.Op != OpIte {
+	case t.Op == OpAdd && t.Args[1].IsConst():
+		return b.constLeafTree(t.Args[0])
+	case t.Op != OpIte:
 		return false
 	}
-	k := [3]int{0, t.ID, 0}
+	k := [4]int{0, t.ID, 0, 0}
 	if r, ok := b.memo[k]; ok {
 		return r == b.True
 	}
@@ -343,45 +357,82 @@ func (b *TB) constLeafTree(t *Term) bool {
 	return r
 }
 
-// Leaves returns the distinct constant leaves of a const-leaf ite-tree.
+// Leaves returns the distinct constant leaves of a const-leaf tree (sorted).
 func (b *TB) Leaves(t *Term) ([]uint64, bool) {
 	if !b.constLeafTree(t) {
 		return nil, false
 	}
-	seen := map[int]bool{}
-	vals := map[uint64]bool{}
-	var out []uint64
-	var walk func(t *Term)
-	walk = func(t *Term) {
-		if seen[t.ID] {
-			return
-		}
-		seen[t.ID] = true
-		if t.IsConst() {
-			if !vals[t.Val] {
-				vals[t.Val] = true
-				out = append(out, t.Val)
-			}
-			return
-		}
-		walk(t.Args[1])
-		walk(t.Args[2])
-	}
-	walk(t)
-	return out, true
+	return b.leaves(t), true
 }
 
-func (b *TB) eqConstPush(t *Term, k *Term) *Term {
+func (b *TB) leaves(t *Term) []uint64 {
 	if t.IsConst() {
-		return b.Bool(t.Val == k.Val)
+		return []uint64{t.Val}
 	}
-	key := [3]int{1, t.ID, k.ID}
+	if r, ok := b.leafc[t.ID]; ok {
+		return r
+	}
+	var out []uint64
+	if t.Op == OpAdd {
+		c := t.Args[1].Val
+		for _, v := range b.leaves(t.Args[0]) {
+			out = append(out, (v+c)&mask(t.W))
+		}
+		out = uniqSorted(out)
+	} else {
+		a, c := b.leaves(t.Args[1]), b.leaves(t.Args[2])
+		out = make([]uint64, 0, len(a)+len(c))
+		out = append(out, a...)
+		out = append(out, c...)
+		out = uniqSorted(out)
+	}
+	b.leafc[t.ID] = out
+	return out
+}
+
+func uniqSorted(a []uint64) []uint64 {
+	sort.Slice(a, func(i, j int) bool { return a[i] < a[j] })
+	n := 0
+	for i, v := range a {
+		if i == 0 || v != a[n-1] {
+			a[n] = v
+			n++
+		}
+	}
+	return a[:n]
+}
+
+// pushOff applies f to every leaf (plus accumulated offset) of a const-leaf
+// tree, rebuilding the ite structure; memoised per (kind, node, param, offset).
+func (b *TB) pushOff(kind, param int, t *Term, off uint64, f func(v uint64) *Term) *Term {
+	if t.IsConst() {
+		return f((t.Val + off) & mask(t.W))
+	}
+	key := [4]int{kind, t.ID, param, int(off)}
 	if r, ok := b.memo[key]; ok {
 		return r
 	}
-	r := b.Ite(t.Args[0], b.eqConstPush(t.Args[1], k), b.eqConstPush(t.Args[2], k))
+	var r *Term
+	if t.Op == OpAdd {
+		r = b.pushOff(kind, param, t.Args[0], off+t.Args[1].Val, f)
+	} else {
+		r = b.Ite(t.Args[0], b.pushOff(kind, param, t.Args[1], off, f), b.pushOff(kind, param, t.Args[2], off, f))
+	}
 	b.memo[key] = r
 	return r
+}
+
+func (b *TB) eqConstPush(t *Term, k *Term) *Term {
+	// strip lazy shifts so that conditions are shared with the base tree
+	kv := k.Val
+	for t.Op == OpAdd && t.Args[1].IsConst() {
+		kv = (kv - t.Args[1].Val) & mask(t.W)
+		t = t.Args[0]
+	}
+	if t.IsConst() {
+		return b.Bool(t.Val == kv)
+	}
+	return b.pushOff(1, int(kv), t, 0, func(v uint64) *Term { return b.Bool(v == kv) })
 }
 
 func (b *TB) Eq(x, y *Term) *Term {
@@ -447,20 +498,6 @@ func sext64(v uint64, w int) int64 {
 	}
 	sh := uint(64 - w)
 	return int64(v<<sh) >> sh
-}
-
-// unary pushdown through const-leaf trees (keeps pointer/tag terms in shape).
-func (b *TB) pushUnary(kind int, param int, t *Term, f func(*Term) *Term) *Term {
-	if t.IsConst() {
-		return f(t)
-	}
-	key := [3]int{kind, t.ID, param}
-	if r, ok := b.memo[key]; ok {
-		return r
-	}
-	r := b.Ite(t.Args[0], b.pushUnary(kind, param, t.Args[1], f), b.pushUnary(kind, param, t.Args[2], f))
-	b.memo[key] = r
-	return r
 }
 
 func (b *TB) binArith(op Op, x, y *Term) *Term {
@@ -552,12 +589,8 @@ func (b *TB) binArith(op Op, x, y *Term) *Term {
 		if y.IsConst() && y.Val == 0 {
 			return x
 		}
-		// const-leaf tree + const: push down (pointer arithmetic, counters)
-		if y.IsConst() && b.constLeafTree(x) {
-			return b.pushUnary(100+int(op), y.ID, x, func(l *Term) *Term { return b.BV(w, l.Val+y.Val) })
-		}
-		if x.IsConst() && b.constLeafTree(y) {
-			return b.pushUnary(100+int(op), x.ID, y, func(l *Term) *Term { return b.BV(w, l.Val+x.Val) })
+		if x.IsConst() {
+			x, y = y, x
 		}
 		// (x + c1) + c2
 		if y.IsConst() && x.Op == OpAdd && x.Args[1].IsConst() {
@@ -587,10 +620,12 @@ func (b *TB) binArith(op Op, x, y *Term) *Term {
 			return x
 		}
 		if y.IsConst() && b.constLeafTree(x) {
-			return b.pushUnary(100+int(op), y.ID, x, func(l *Term) *Term { return b.BV(w, l.Val*y.Val) })
+			c := y.Val
+			return b.pushOff(100+int(op), y.ID, x, 0, func(v uint64) *Term { return b.BV(w, v*c) })
 		}
 		if x.IsConst() && b.constLeafTree(y) {
-			return b.pushUnary(100+int(op), x.ID, y, func(l *Term) *Term { return b.BV(w, l.Val*x.Val) })
+			c := x.Val
+			return b.pushOff(100+int(op), x.ID, y, 0, func(v uint64) *Term { return b.BV(w, v*c) })
 		}
 	}
 	return b.mk(&Term{Op: op, W: w, Args: []*Term{x, y}})
@@ -648,10 +683,12 @@ func (b *TB) cmp(op Op, x, y *Term) *Term {
 		return b.Bool(op == OpUle || op == OpSle)
 	}
 	if y.IsConst() && b.constLeafTree(x) {
-		return b.pushUnary(200+int(op), y.ID, x, func(l *Term) *Term { return b.Bool(ev(l.Val, y.Val)) })
+		c := y.Val
+		return b.pushOff(200+int(op), y.ID, x, 0, func(v uint64) *Term { return b.Bool(ev(v, c)) })
 	}
 	if x.IsConst() && b.constLeafTree(y) {
-		return b.pushUnary(300+int(op), x.ID, y, func(l *Term) *Term { return b.Bool(ev(x.Val, l.Val)) })
+		c := x.Val
+		return b.pushOff(300+int(op), x.ID, y, 0, func(v uint64) *Term { return b.Bool(ev(c, v)) })
 	}
 	return b.mk(&Term{Op: op, W: 0, Args: []*Term{x, y}})
 }
@@ -670,7 +707,7 @@ func (b *TB) Extract(hi, lo int, x *Term) *Term {
 		return b.BV(w, x.Val>>uint(lo))
 	}
 	if b.constLeafTree(x) {
-		return b.pushUnary(400+hi*64+lo, 0, x, func(l *Term) *Term { return b.BV(w, l.Val>>uint(lo)) })
+		return b.pushOff(400+hi*64+lo, 0, x, 0, func(v uint64) *Term { return b.BV(w, v>>uint(lo)) })
 	}
 	return b.mk(&Term{Op: OpExtract, W: w, Args: []*Term{x}, Hi: hi, Lo: lo})
 }
@@ -686,7 +723,7 @@ func (b *TB) Zext(x *Term, to int) *Term {
 		return b.BV(to, x.Val)
 	}
 	if b.constLeafTree(x) {
-		return b.pushUnary(5000+to, 0, x, func(l *Term) *Term { return b.BV(to, l.Val) })
+		return b.pushOff(5000+to, 0, x, 0, func(v uint64) *Term { return b.BV(to, v) })
 	}
 	return b.mk(&Term{Op: OpZext, W: to, Args: []*Term{x}, Hi: to - x.W})
 }
@@ -703,7 +740,7 @@ func (b *TB) Sext(x *Term, to int) *Term {
 	}
 	if b.constLeafTree(x) {
 		fw := x.W
-		return b.pushUnary(6000+to, 0, x, func(l *Term) *Term { return b.BV(to, uint64(sext64(l.Val, fw))) })
+		return b.pushOff(6000+to, 0, x, 0, func(v uint64) *Term { return b.BV(to, uint64(sext64(v, fw))) })
 	}
 	return b.mk(&Term{Op: OpSext, W: to, Args: []*Term{x}, Hi: to - x.W})
 }
@@ -892,3 +929,19 @@ func (b *TB) Eval(t *Term, model map[string]uint64, memo map[int]uint64) uint64 
 }
 
 var _ = bits.Len
+
+func (b *TB) OpCounts() map[string]int {
+	names := map[Op]string{OpConst: "const", OpVar: "var", OpNot: "not", OpAnd: "and", OpOr: "or", OpIte: "ite", OpEq: "eq", OpAdd: "add"}
+	r := map[string]int{}
+	for _, t := range b.tab {
+		n := names[t.Op]
+		if n == "" {
+			n = fmt.Sprintf("op%d", t.Op)
+		}
+		if t.Op == OpIte && t.W == 0 {
+			n = "itebool"
+		}
+		r[n]++
+	}
+	return r
+}
